@@ -14,6 +14,7 @@ structure DSt where
   nr : Bool := false
   pats : List (Pat × Nat) := []
   timers : List RTimer := []
+  scripts : List (Nat × List Api) := []     -- what the callback with this id does when it is called
 
 def DSt.sysR (st : DSt) : SysR := { base := { host := st.h, dev := st.d, down := [] }, nr := st.nr, pats := st.pats, timers := st.timers }
 
@@ -109,13 +110,27 @@ def showState (h : Host) : String :=
   let pend := ",".intercalate (h.pending.map fun e => s!"{e.kind.cmd}/{e.ident}/{match e.rid with | none => "-" | some r => toString r}")
   s!"ok v2={h.useV2} upd2={h.updV2} init={h.initialized} q=[{q}] cur={cur} lock={h.lockHeld} pat={pat} pend=[{pend}] nvals={h.values.length}"
 
+def DSt.script (st : DSt) (rid : Nat) : List Api := ((st.scripts.find? (·.1 == rid)).map (·.2)).getD []
+
+/-- one nested API call: `set,<cn>,<pyval>` `get,<cn>` `requpd,<cn>` `getdef,<cn>,<rid>` `getstate,<cn>,<rid>` `store,<cn>,<rid|->` `clear,<cn>,<rid|->` -/
+def parseCall? (s : String) : Option Api :=
+  match s.splitOn "," with
+  | ["set", cn, v] => do pure (.setValue (← parseCn? cn) (← parsePyVal? v) true)
+  | ["get", cn] => do pure (.getValue (← parseCn? cn) true)
+  | ["requpd", cn] => do pure (.requestUpdate (← parseCn? cn))
+  | ["getdef", cn, r] => do pure (.getDefault (← parseCn? cn) (← r.toNat?))
+  | ["getstate", cn, r] => do pure (.getState (← parseCn? cn) (← r.toNat?))
+  | ["store", cn, r] => do pure (.store (← parseCn? cn) (← parseOptNat? r))
+  | ["clear", cn, r] => do pure (.clear (← parseCn? cn) (← parseOptNat? r))
+  | _ => none
+
 def step (st : DSt) (ws : List String) : DSt × String :=
   let bad := (st, "bad-op")
   let upd (r : Host × List Out) : DSt × String := ({ st with h := r.1 }, showOuts r.2)
   match ws with
   | ["reset", routing, snap, v2, toc] =>
     match routing.toNat?, parseBool? snap, parseBool? v2, parseToc? toc with
-    | some r, some s, some v, some t => ({ st with v := { routing := r, snap := s }, h := Host.init t v, nr := false, pats := [], timers := [] }, "ok -")
+    | some r, some s, some v, some t => ({ st with v := { routing := r, snap := s }, h := Host.init t v, nr := false, pats := [], timers := [], scripts := [] }, "ok -")
     | _, _, _, _ => bad
   | ["force-init"] => ({ st with h := { st.h with initialized := true, isUpdated := true } }, "ok -")
   | ["set", cn, v, inCb, orc] =>
@@ -177,6 +192,10 @@ def step (st : DSt) (ws : List String) : DSt × String :=
           | _ => st
         ({ st1 with h := r.1 }, showOuts r.2)
       | none => (st, "disabled")
+  | ["script", rid, calls] =>
+    match rid.toNat?, (if calls == "-" then some [] else (calls.splitOn ";").mapM parseCall?) with
+    | some r, some cs => ({ st with scripts := (r, cs) :: st.scripts }, "ok -")
+    | _, _ => bad
   | ["retry-reset", nr] =>
     match parseBool? nr with
     | some b => ({ st with nr := b, pats := [], timers := [] }, "ok -")
@@ -202,7 +221,7 @@ def step (st : DSt) (ws : List String) : DSt × String :=
     match chan.toNat?, ofHex? data with
     | some c, some d =>
       let s1 := st.sysR.onReceive { chan := c, data := d }     -- `_check_for_answers` runs before the port callbacks
-      let r := rx st.v st.h { chan := c, data := d }
+      let r := rxS (fun _ => .error .other) st.v st.h.useV2 st.script st.h { chan := c, data := d }
       ({ st with h := r.1, pats := s1.pats, timers := s1.timers }, showOuts r.2)
     | _, _ => bad
   | ["state"] => (st, showState st.h)
